@@ -56,11 +56,11 @@ func newInstances(t *testing.T, n int, probe *fakes.Probe) []*inst {
 
 // step of a scenario
 type step struct {
-	Kind  string `json:"kind"`  // claim | unclaim | deliver | merge | leave
-	From  int    `json:"from"`  // acting / sending instance
-	To    int    `json:"to"`    // receiving instance (deliver, merge, leave: the instance that is told)
-	Shard int    `json:"shard"` // shard index
-	Ann   int    `json:"ann"`   // deliver: index of the announcement (in order of creation)
+	Kind  string `json:"kind"`           // claim | unclaim | deliver | merge | leave
+	From  int    `json:"from"`           // acting / sending instance
+	To    int    `json:"to"`             // receiving instance (deliver, merge, leave: the instance that is told)
+	Shard int    `json:"shard"`          // shard index
+	Ann   int    `json:"ann"`            // deliver: index of the announcement (in order of creation)
 	Dead  bool   `json:"dead,omitempty"` // leave: the node crashed (memberlist reports StateDead) instead of leaving gracefully (StateLeft)
 }
 
@@ -357,9 +357,9 @@ func convergence(t *testing.T, raceSubset bool) {
 	probe := fakes.NewProbe(1)
 	insts := newInstances(t, 3, probe)
 	type fam struct {
-		name                 string
-		nInst, nShard        int
-		leave, unclaim       bool
+		name           string
+		nInst, nShard  int
+		leave, unclaim bool
 	}
 	fams := []fam{{"2x1", 2, 1, true, true}, {"3x1", 3, 1, true, false}, {"2x2", 2, 2, true, false}}
 	if raceSubset {
@@ -417,6 +417,21 @@ func convergence(t *testing.T, raceSubset bool) {
 		out.Begin(rname, nil)
 		viol, counts := routing(insts)
 		out.End(rec.Line{Case: rname, Viol: dedupe(viol), Counts: counts, Class: rname})
+	}
+	// routing clause, reachable remote owner: acks over a real intra-proxy stream that the owner ends
+	idx++
+	pname := "peer-stream"
+	if raceSubset {
+		pname = "race-peer-stream"
+	}
+	if rec.Want(idx, pname) {
+		out.Begin(pname, nil)
+		viol, counts, classes, inc, sample := peerStream(t)
+		l := rec.Line{Case: pname, Viol: dedupe(viol), Counts: counts, Classes: classes, Sample: sample}
+		if inc != "" && len(viol) == 0 {
+			l.Verdict, l.Why = rec.Inconclusive, inc
+		}
+		out.End(l)
 	}
 }
 
